@@ -214,15 +214,18 @@ def rotate? (site : Site) (r : List Str) (k : Nat) : M (List Str) :=
     | some x => pure (x :: (r.take k ++ r.drop (k + 1)))
     | none => throw (.fault site)
 
+/-- `dataframe::params`: `dialect` (delimiter, trim_ws, has_header, quoting), `filter`, `output_index` -/
 structure Params where
-  delim : Char := '\x00'           -- `'\x00'` = sniff
-  header : Option Bool := none     -- `none` = GUESS_HEADER
-  trimWs : Bool := false
-  outIdx : Option Nat := some 0
-  filter : List Str → Bool := fun _ => true
+  delim : Char := '\x00'           -- `dialect.delimiter`, `'\x00'` = sniff
+  header : Option Bool := none     -- `dialect.has_header`, `none` = GUESS_HEADER
+  trimWs : Bool := false           -- `dialect.trim_ws`
+  keepQuotes : Bool := false       -- `dialect.quoting == KEEP_QUOTES`
+  outIdx : Option Nat := some 0    -- `output_index`
+  hook : Hook := some              -- `filter` (`nullptr` = `some`)
 
 /-- the dialect `read_csv` ends up with: the sniffer runs when the header or the delimiter
-    is left open, and it always judges the header with the delimiter *it* guessed -/
+    is left open, and it always judges the header with the delimiter *it* guessed; each of the two
+    sniffed values is used only where the caller left the setting open (two independent `if`s) -/
 def resolveDialect {F} (cfg : Cfg) (o : NumOracle F) (p : Params) (lines : List Str) : Char × Bool :=
   if p.header.isNone || p.delim = '\x00' then
     let s := sniffer o cfg.sniffLines lines
@@ -263,7 +266,8 @@ def readCsvRecs {F} (cfg : Cfg) (o : NumOracle F) (outIdx : Option Nat) (hasHdr 
 def readCsv {F} (cfg : Cfg) (o : NumOracle F) (p : Params) (bytes : Str) : M (DF F) :=
   let lines := splitLines bytes
   let (d, h) := resolveDialect cfg o p lines
-  readCsvRecs cfg o p.outIdx h (records { delim := d, trimWs := p.trimWs } p.filter lines)
+  readCsvRecs cfg o p.outIdx h
+    (records { delim := d, trimWs := p.trimWs, keepQuotes := p.keepQuotes } p.hook lines)
 
 /-! ### `read_xrff` from the parsed document -/
 
@@ -329,6 +333,36 @@ def readXrff {F} (cfg : Cfg) (o : NumOracle F) (filter : List Str → Bool) : XD
       | none => throw (.exc .dataFormat)
       | some insts =>
         insts.foldlM (xInstStep cfg o filter k) { cols := cols } >>= fun df =>
+        isValid df >>= fun v =>
+        if cfg.guards && !v then throw (.exc .insufficientData)
+        else pure (df, if v then df.examples.length else 0)
+
+/-- one `<instance>` with the hook as it is (`filter_hook_t` may rewrite the record): the hook is
+    handed the values in the order of the `<value>` elements, *before* the output value is moved to
+    the front; what it leaves in the record is what is rotated and read -/
+def xInstStepH {F} (cfg : Cfg) (o : NumOracle F) (hook : Hook) (k : Nat)
+    (df : DF F) (record : List Str) : M (DF F) :=
+  match hook record with
+  | none => pure df
+  | some r =>
+    (if cfg.guards && k ≥ r.length then pure r else rotate? .rotateXrff r k) >>= fun rec' =>
+    readRecord o df rec' false
+
+/-- `read_xrff` with the hook as it is; `p.dialect` and `p.output_index` are not looked at
+    ("used only when reading CSV files"), so they are not parameters here -/
+def readXrffH {F} (cfg : Cfg) (o : NumOracle F) (hook : Hook) : XDoc → M (DF F × Nat)
+  | .parseError => throw (.exc .dataFormat)
+  | .noAttributes => throw (.exc .dataFormat)
+  | .doc attrs instances =>
+    attrs.foldlM xAttrStep {} >>= fun st =>
+    if st.cols.isEmpty then throw (.exc .dataFormat)
+    else
+      let cols := if st.nOutput = 0 then st.cols.getLast?.toList ++ st.cols.dropLast else st.cols
+      let k := if st.nOutput = 0 then st.index - 1 else st.outputIndex
+      match instances with
+      | none => throw (.exc .dataFormat)
+      | some insts =>
+        insts.foldlM (xInstStepH cfg o hook k) { cols := cols } >>= fun df =>
         isValid df >>= fun v =>
         if cfg.guards && !v then throw (.exc .insufficientData)
         else pure (df, if v then df.examples.length else 0)
